@@ -30,26 +30,32 @@ Build ==
 
 Dates == {"before", "at", "after"}
 C(im, inm, ius, ims) == [im |-> im, inm |-> inm, ius |-> ius, ims |-> ims]
+\* the full product of {absent, current token, replaced token} on both tag sides with {absent, before,
+\* after} on both date sides (81 combinations: every precedence rule, matched and CROSS pairs), the
+\* boundary date "at", "*", and token lists
+Tags3 == {NoneT, <<Cur>>, <<Stale>>}
+Dates3 == {"none", "before", "after"}
 Conds ==
-       \* one date condition
-       {C(NoneT, NoneT, d, "none") : d \in Dates} \cup {C(NoneT, NoneT, "none", d) : d \in Dates}
-       \* both date conditions
-  \cup {C(NoneT, NoneT, d1, d2) : d1 \in {"before", "after"}, d2 \in {"before", "after"}}
-       \* a tag condition overrides its date condition
-  \cup {C(<<Cur>>, NoneT, "before", "none"), C(<<Stale>>, NoneT, "after", "none"), C(StarT, NoneT, "before", "none"),
-        C(NoneT, <<Cur>>, "none", "before"), C(NoneT, <<Stale>>, "none", "after"), C(NoneT, <<Bogus>>, "none", "at")}
-       \* token lists
+       {C(im, inm, d1, d2) : im \in Tags3, inm \in Tags3, d1 \in Dates3, d2 \in Dates3}
+  \cup {C(NoneT, NoneT, "at", "none"), C(NoneT, NoneT, "none", "at"), C(NoneT, NoneT, "at", "at"),
+        C(<<Cur>>, NoneT, "none", "at"), C(NoneT, <<Stale>>, "at", "none")}
+  \cup {C(StarT, NoneT, "before", "none"), C(StarT, NoneT, "none", "after"), C(NoneT, StarT, "none", "before"),
+        C(NoneT, StarT, "before", "none"), C(StarT, StarT, "none", "none"), C(NoneT, <<Bogus>>, "none", "at")}
   \cup {C(<<Bogus, Cur>>, NoneT, "none", "none"), C(<<Stale, Bogus>>, NoneT, "none", "none"),
-        C(<<Bogus, Stale, Cur>>, NoneT, "none", "none"),
-        C(NoneT, <<Bogus, Cur>>, "none", "none"), C(NoneT, <<Stale, Bogus>>, "none", "none"),
+        C(<<Bogus, Stale, Cur>>, NoneT, "none", "after"),
+        C(NoneT, <<Bogus, Cur>>, "none", "none"), C(NoneT, <<Stale, Bogus>>, "before", "none"),
         C(NoneT, <<Cur, Bogus>>, "none", "none")}
-       \* both tag conditions: the match side first
-  \cup {C(<<Cur>>, <<Cur>>, "none", "none"), C(<<Stale>>, <<Cur>>, "none", "none"), C(<<Cur>>, <<Stale>>, "none", "none"),
-        C(StarT, StarT, "none", "none"), C(<<Bogus>>, NoneT, "none", "after")}
+\* head shares the evaluation with get: a sample of the conditions
+HeadConds ==
+  {C(NoneT, NoneT, "none", "none"), C(NoneT, NoneT, "before", "none"), C(NoneT, NoneT, "none", "after"),
+   C(<<Cur>>, NoneT, "none", "after"), C(NoneT, <<Stale>>, "before", "none"), C(<<Stale>>, NoneT, "none", "none"),
+   C(NoneT, <<Cur>>, "none", "none"), C(StarT, NoneT, "none", "none"), C(NoneT, StarT, "none", "none"),
+   C(<<Cur>>, <<Stale>>, "before", "after"), C(<<Bogus, Cur>>, NoneT, "none", "none")}
 
 ListPrefixes == {<<>>, <<"a">>, <<"a", "b">>, <<"a", "b", "c">>, <<"ab">>, <<"x">>}
 ObsCalls ==
-       {<<"cond", h, k, c>> : h \in {"get", "head"}, k \in Keys, c \in Conds}
+       {<<"cond", "get", k, c>> : k \in Keys, c \in Conds}
+  \cup {<<"cond", "head", k, c>> : k \in Keys, c \in HeadConds}
   \cup {<<"list", pp>> : pp \in ListPrefixes}
   \cup {<<"list_offset", pp, off>> : pp \in {<<>>, <<"a">>}, off \in DOMAIN MCRank}
   \cup {<<"list_delim", pp>> : pp \in ListPrefixes}
